@@ -25,8 +25,8 @@ CHECKS = {
    ref='7 (C04)'),
  'C08': dict(
    cat='proof',
-   text='Invariant by induction over arbitrary histories of the full API (any clock, any volume oracle): Settings.count = number of rows and Settings.size = SUM(size), via a generic closure theorem (any predicate preserved by insert/update/delete with the generated trigger arithmetic is preserved by every API call). Files-vs-rows agreement and Cache.check() silence are decided by the monitor after every call, under single injected SQL/file faults and unencodable values, and by the row/file correspondence.',
-   note='Trusted: Coq kernel; trigger model; fault injection raises before the statement executes (COMMIT/ROLLBACK/unlink are not injection points). The file clause is not yet a theorem (monitor + correspondence only); concurrent clause is C05. incr storing a non-native value inside its transaction is outside the rollback cleanup (rare: only big ints with a tiny disk_min_file_size).',
+   text='Invariant by induction over arbitrary histories of the full API (any clock, any volume oracle): Settings.count = number of rows and Settings.size = SUM(size), via a generic closure theorem (any predicate preserved by insert/update/delete with the generated trigger arithmetic is preserved by every API call); and the file clause: under the state invariant Sinv, proved for every history from the empty cache, the value files are exactly the files the rows refer to, each of the recorded size, rows without a file have size 0, reported size = total size of the value files. Cache.check() silence and the behaviour under single injected SQL/file faults and unencodable values are decided by the monitor after every call, and by the row/file correspondence.',
+   note='Trusted: Coq kernel; trigger model; fault injection raises before the statement executes (COMMIT/ROLLBACK/unlink are not injection points). Faulted histories (rollback after a failed statement, partial file removal) are decided by the monitor, not by a theorem; concurrent clause is C05/C07 (machine invariant instantiated with the real bodies). incr storing a non-native value inside its transaction is outside the rollback cleanup (rare: only big ints with a tiny disk_min_file_size).',
    tech='Coq proof (generic invariant-closure theorem over the operation skeletons + trigger bridge lemmas) + fault-injection monitor',
    ref='7 (C08)'),
  'C16': dict(
@@ -73,8 +73,8 @@ CHECKS = {
    ref='7 (C20)'),
  'C03': dict(
    cat='proof',
-   text='Row-level theorems for every reachable state, configuration, clock value and volume oracle: rowids strictly ascending for every history (insertion order = iteration order, replacing keeps the position), count = number of rows, and the removal clause: the lazy cull removes only passed rows or, under an evicting policy, rows once volume >= size_limit; set removes no other key except through that cull; get/contains/touch remove nothing; delete/pop remove exactly the one live item their key addresses. Lookup clauses are C04, value/key clauses C01/C02. Tie: SQL/guard translator with bridge lemmas + three-way differential run (implementation, plain-Python reference dictionary, Coq row model) with the table compared after every call, exhaustive short sequences and histories crossing the 100-row page size.',
-   note='Trusted: Coq kernel; relational SQL model; control skeleton of Cache.v pinned by translator templates and validated after every call. Partial: the whole-state dictionary laws (get-after-set, no shadowing, iteration = rows for every table size) are decided by the reference-dictionary monitor and the correspondence; their Coq proofs (SinvFacts) are cited only when present in the tree. incr on float values is outside the model (kept out of generated histories).',
+   text='Row-level theorems for every reachable state, configuration, clock value and volume oracle: rowids strictly ascending for every history (insertion order = iteration order, replacing keeps the position), count = number of rows, and the removal clause: the lazy cull removes only passed rows or, under an evicting policy, rows once volume >= size_limit; set removes no other key except through that cull; get/contains/touch remove nothing; delete/pop remove exactly the one live item their key addresses. The whole-state dictionary laws are proved for every state satisfying the invariant Sinv (rowids ascending and positive, keys unique, file references unique/resolving/of the recorded size, no orphan file, counters), which is proved for every history from the empty cache: get-after-set (value, expiry, tag; or removed by that write's own cull), no shadowing between distinct keys (set/delete/pop/touch/incr), absent after delete/pop, add = set on an absent or dead key, incr after set, iteration = insertion order for every table size with len = number of rows, set keeps the position of an existing key and appends a new one. Lookup clauses are C04, value/key clauses C01/C02. Tie: SQL/guard translator with bridge lemmas + three-way differential run (implementation, plain-Python reference dictionary, Coq row model) with the table compared after every call, exhaustive short sequences and histories crossing the 100-row page size.',
+   note='Trusted: Coq kernel; relational SQL model; control skeleton of Cache.v pinned by translator templates and validated after every call. The exact (non-disjunctive) forms of get-after-set/no-shadowing assume cull_limit = 0 (the lazy cull really can remove another key's expired or evicted item; the general forms carry that disjunct). Sinv for histories containing push assumes the pushed key is fresh (queue key theory: C10). iterkeys (sorted order) is monitored, not proved. incr on float values is outside the model (kept out of generated histories).',
    tech='Coq proof (generic invariant closure over operation skeletons, bridge lemmas, rowid uniqueness) + generated model + three-way differential testing',
    ref='7 (C03)'),
  'C09': dict(
